@@ -39,7 +39,7 @@ CHECKS = {
     "C03": dict(
         engine="E2", cat="model_checking",
         technique="exhaustive enumeration of structured seed alphabets (1-, 2-, 3-bit patterns, byte probes, dense chains) against readable.c-style ISAAC / ISAAC-64 models over 3..4000 blocks; seed_from_u64(0) against the unseeded reference",
-        text="Both generators are compared word by word with independent models of Jenkins' reference code for every seed of the alphabets over all 768 words of the first three blocks, for hundreds of blocks on a subset, and for the unseeded reference; all 256 values of both indirection indices are confirmed exercised. Added since: the same comparison through the bare block cores IsaacCore / Isaac64Core, 2^14 / 2^18-block runs, and lock-step through the rare events found on the reference models. Round 9: the reference ISAAC step also records value coincidences inside a step (a looked-up word equal to the old word of the rewritten slot in another slot, an unchanged rewrite, equal or zero look-ups, a zero accumulator; about 2^-32 per step each), visited in lock-step like the stream events.",
+        text="Both generators are compared word by word with independent models of Jenkins' reference code for every seed of the alphabets over all 768 words of the first three blocks, for hundreds of blocks on a subset, and for the unseeded reference; all 256 values of both indirection indices are confirmed exercised. Added since: the same comparison through the bare block cores IsaacCore / Isaac64Core, 2^14 / 2^18-block runs, and lock-step through the rare events found on the reference models. Round 9: the reference ISAAC step also records value coincidences inside a step (a looked-up word equal to the old word of the rewritten slot in another slot, an unchanged rewrite, equal or zero look-ups, a zero accumulator; about 2^-32 per step each), visited in lock-step like the stream events; the ISAAC-64 reference step records the analogous 32-bit-half coincidences.",
         note="models validated against reference vectors each run; seeds outside the alphabet not enumerated",
         ref="4/C03"),
     "C05": dict(
